@@ -40,6 +40,11 @@ pub struct LocoInit {
     /// component masses and specific values: (mass, specific) for fc, gen (conventional) or res (battery)
     pub comp_a: (Option<f64>, Option<f64>),
     pub comp_b: (Option<f64>, Option<f64>),
+    /// hybrid locomotive: fc = comp_a, gen = comp_b, res = comp_c
+    #[serde(default)]
+    pub hybrid: bool,
+    #[serde(default)]
+    pub comp_c: (Option<f64>, Option<f64>),
 }
 
 #[derive(Serialize, Deserialize, Clone, Debug)]
@@ -287,14 +292,28 @@ struct LocoRaw {
 }
 
 fn loco_value(init: &LocoInit) -> Value {
-    let base = if init.bel { Locomotive::default_battery_electric_loco() } else { Locomotive::default() };
+    let base = if init.hybrid {
+        Locomotive::default_hybrid_electric_loco()
+    } else if init.bel {
+        Locomotive::default_battery_electric_loco()
+    } else {
+        Locomotive::default()
+    };
     let mut v = serde_json::to_value(&base).unwrap();
     v["mass"] = json!(init.mass);
     v["mu"] = json!(init.mu);
     v["force_max"] = json!(init.force_max);
     v["baseline_mass"] = json!(init.baseline);
     v["ballast_mass"] = json!(init.ballast);
-    if init.bel {
+    if init.hybrid {
+        let h = &mut v["loco_type"]["HybridLoco"];
+        h["fc"]["mass"] = json!(init.comp_a.0);
+        h["fc"]["specific_pwr"] = json!(init.comp_a.1);
+        h["gen"]["mass"] = json!(init.comp_b.0);
+        h["gen"]["specific_pwr"] = json!(init.comp_b.1);
+        h["res"]["mass"] = json!(init.comp_c.0);
+        h["res"]["specific_energy"] = json!(init.comp_c.1);
+    } else if init.bel {
         let r = &mut v["loco_type"]["BatteryElectricLoco"]["res"];
         r["mass"] = json!(init.comp_a.0);
         r["specific_energy"] = json!(init.comp_a.1);
@@ -323,6 +342,11 @@ fn loco_raw(l: &Locomotive) -> LocoRaw {
         comp(&c["gen"], "specific_pwr", "pwr_out_max_watts");
     }
     if let Some(c) = v["loco_type"].get("BatteryElectricLoco") {
+        comp(&c["res"], "specific_energy", "energy_capacity_joules");
+    }
+    if let Some(c) = v["loco_type"].get("HybridLoco") {
+        comp(&c["fc"], "specific_pwr", "pwr_out_max_watts");
+        comp(&c["gen"], "specific_pwr", "pwr_out_max_watts");
         comp(&c["res"], "specific_energy", "energy_capacity_joules");
     }
     LocoRaw {
@@ -388,7 +412,13 @@ fn init_raw(init: &LocoInit) -> LocoRaw {
 fn run_loco(case: &C20Case, cx: &mut Ctx) {
     let init = case.loco_init.as_ref().unwrap();
     let raw0 = init_raw(init);
-    cx.label(if init.bel { "battery_loco" } else { "conventional_loco" });
+    cx.label(if init.hybrid {
+        "hybrid_loco"
+    } else if init.bel {
+        "battery_loco"
+    } else {
+        "conventional_loco"
+    });
     let mut l = match build_loco(init) {
         Ok(l) => {
             if !loco_mass_consistent(&raw0) {
@@ -649,9 +679,19 @@ fn gen_opt(g: &mut Gen, p_some: f64, lo: f64, hi: f64) -> Option<f64> {
 }
 
 fn gen_loco_init(g: &mut Gen) -> LocoInit {
-    let bel = g.bool(0.4);
+    // 0 conventional, 1 battery-electric, 2 hybrid (engine, generator and battery)
+    let kind = g.weighted(&[4, 3, 3]);
+    let (bel, hybrid) = (kind == 1, kind == 2);
     let mass_world = Gen::round(g.f64(80.0e3, 220.0e3), 0);
     let (ra, rb) = if bel { (8.64e9, 0.0) } else { (3.356e6, 5.0e6) };
+    let (ra, rb, rc) = if hybrid {
+        // ratings of the shipped hybrid, read from its own image
+        let v = serde_json::to_value(Locomotive::default_hybrid_electric_loco()).unwrap();
+        let h = &v["loco_type"]["HybridLoco"];
+        (num(&h["fc"]["pwr_out_max_watts"]).unwrap_or(ra), num(&h["gen"]["pwr_out_max_watts"]).unwrap_or(rb), num(&h["res"]["energy_capacity_joules"]).unwrap_or(8.64e9))
+    } else {
+        (ra, rb, 0.0)
+    };
     // 0: no derived-mass data at all; 1: complete and consistent; 2: arbitrary (mostly
     // incomplete or contradictory: the load must then be rejected)
     let mode = g.weighted(&[4, 4, 2]);
@@ -676,6 +716,7 @@ fn gen_loco_init(g: &mut Gen) -> LocoInit {
     };
     let comp_a = comp(g, ra, mode);
     let comp_b = if bel { (None, None) } else { comp(g, rb, mode) };
+    let comp_c = if hybrid { comp(g, rc, mode) } else { (None, None) };
     let (baseline, ballast) = match mode {
         0 => (None, None),
         1 => (Some(Gen::round(g.f64(50.0e3, 120.0e3), 0)), Some(Gen::round(g.f64(0.0, 30.0e3), 0))),
@@ -685,9 +726,9 @@ fn gen_loco_init(g: &mut Gen) -> LocoInit {
             _ => (Some(100.0e3), None),
         },
     };
-    let comps_known = comp_a.0.is_some() && (bel || comp_b.0.is_some());
+    let comps_known = comp_a.0.is_some() && (bel || comp_b.0.is_some()) && (!hybrid || comp_c.0.is_some());
     let derived = if comps_known && baseline.is_some() && ballast.is_some() {
-        Some(baseline.unwrap() + ballast.unwrap() + comp_a.0.unwrap() + comp_b.0.unwrap_or(0.0))
+        Some(baseline.unwrap() + ballast.unwrap() + comp_a.0.unwrap() + comp_b.0.unwrap_or(0.0) + comp_c.0.unwrap_or(0.0))
     } else {
         None
     };
@@ -702,7 +743,7 @@ fn gen_loco_init(g: &mut Gen) -> LocoInit {
         (Some(mu), Some(m)) if mode != 2 || g.bool(0.7) => mu * m * G,
         _ => Gen::round(g.f64(200.0e3, 900.0e3), 0),
     };
-    LocoInit { bel, mass, mu, force_max, baseline, ballast, comp_a, comp_b }
+    LocoInit { bel, mass, mu, force_max, baseline, ballast, comp_a, comp_b, hybrid, comp_c }
 }
 
 pub struct C20;
